@@ -25,6 +25,7 @@ import (
 	"seehuhn.de/go/sfnt/opentype/gtab"
 
 	"verif/harness/internal/gen/fontgen"
+	"verif/harness/internal/gen/otl"
 	"verif/harness/internal/mon"
 )
 
@@ -461,6 +462,96 @@ func c01opts(k *mon.Case) fontgen.Opts {
 	return o
 }
 
+// c01roundTrip is the deciding sequence for a constructed font: Write twice
+// (and, for every sixth case, once more in a second process), Read, compare
+// with the normal form, and the byte fixed point.
+func c01roundTrip(c *mon.Ctx, k *mon.Case, stratum string, f *sfnt.Font, info *fontgen.Info, desc string, childOut string) {
+	b1, ok := writeFont(k, f, "Write(F)")
+	if !ok {
+		return
+	}
+	if childOut != "" {
+		os.WriteFile(childOut, []byte(fingerprint(b1)), 0o644)
+		return
+	}
+	k.DistinctBytes(b1)
+	k.Class("kind=" + info.Kind)
+	k.Class("kind=" + info.Kind + ",layout=" + map[bool]string{true: "yes", false: "no"}[f.Gsub != nil || f.Gpos != nil])
+	k.Class("cmap=" + info.CMap)
+	switch {
+	case info.NGlyphs <= 3:
+		k.Class("glyphs<=3")
+	case info.NGlyphs >= 255 && info.NGlyphs <= 257:
+		k.Class("glyphs~256")
+	case info.NGlyphs >= 900:
+		k.Class("glyphs>=900")
+	default:
+		k.Class("glyphs 4..254")
+	}
+	for _, cl := range info.Classes {
+		k.Class(cl)
+	}
+	// determinism
+	b1b, ok := writeFont(k, f, "Write(F)")
+	if !ok {
+		return
+	}
+	k.Eval()
+	if !bytes.Equal(b1, b1b) {
+		k.Fail("mismatch", "nondeterministic-write", "two calls of Write(F) differ at byte %d (%s)", firstDiff(b1, b1b), desc)
+		return
+	}
+	if k.Index%6 == 0 {
+		// once more in a second OS process
+		exe, _ := os.Executable()
+		tmp := filepath.Join(c.OutDir, fmt.Sprintf("child-%d-%d", c.Shard, k.Index))
+		os.MkdirAll(tmp, 0o755)
+		hf := filepath.Join(tmp, "hash")
+		cmd := exec.Command(exe, "-worker", "-prop", "C01", "-tier", c.Tier, "-seed", fmt.Sprint(c.Seed), "-only", fmt.Sprintf("%s:%d", stratum, k.Index), "-out", tmp, "-nshards", "1")
+		cmd.Env = append(os.Environ(), "C01_CHILD_HASH="+hf)
+		if err := cmd.Run(); err == nil {
+			hb, _ := os.ReadFile(hf)
+			k.Eval()
+			if string(hb) != fingerprint(b1) {
+				k.Fail("mismatch", "nondeterministic-write:cross-process", "Write(F) in a second process gives different bytes (%s vs %s; %s)", hb, fingerprint(b1), desc)
+			}
+			k.Class("cross-process-determinism")
+		}
+		os.RemoveAll(tmp)
+	}
+	// lossless
+	g, ok := readFont(k, b1, "Read(Write(F))")
+	if !ok {
+		return
+	}
+	k.Eval()
+	want := normalForm(f)
+	if f.Gsub == nil {
+		// synthetic standard ligatures: compared semantically
+		wantLig := map[string]map[glyph.ID]bool{}
+		if !f.IsFixedPitch() {
+			wantLig = stdLigatures(f)
+		}
+		got := ligatureSet(g.Gsub)
+		if !sameLigatures(wantLig, got) {
+			k.Fail("mismatch", "lossless:synthetic-ligatures", "font without GSUB: ligature rules after reading %v, expected %v (%s)", got, wantLig, desc)
+		}
+		if len(wantLig) > 0 {
+			k.Class("rule:synthetic-ligatures")
+		}
+		want.Gsub = g.Gsub
+	}
+	if d := diffFonts(want, g); d != "" {
+		k.Fail("mismatch", "lossless:font-differs:"+firstDiffField(d), "Read(Write(F)) differs from N(F) (%s) (-want +got):\n%s", desc, d)
+		return
+	}
+	// fixed point from G
+	fixedPoint(k, g, "Read(Write(F))")
+	if k.Index < 3 {
+		k.Sample(desc + fmt.Sprintf(" bytes=%d sha=%s", len(b1), fingerprint(b1)))
+	}
+}
+
 func runC01(c *mon.Ctx) {
 	childOut := os.Getenv("C01_CHILD_HASH")
 	c.Stratum("constructed", c.N(500, 6000), func(k *mon.Case) {
@@ -470,90 +561,44 @@ func runC01(c *mon.Ctx) {
 			f.ModificationTime = f.ModificationTime.AddDate(2001, 0, 0)
 		}
 		desc := fmt.Sprintf("kind=%s glyphs=%d cmap=%s layout=%s", info.Kind, info.NGlyphs, info.CMap, info.Layout)
-		b1, ok := writeFont(k, f, "Write(F)")
-		if !ok {
-			return
+		c01roundTrip(c, k, "constructed", f, info, desc, childOut)
+	})
+	c.Stratum("rich-layout", c.N(150, 4000), func(k *mon.Case) {
+		// whole fonts whose GSUB/GPOS/GDEF tables use every lookup type and
+		// format the encoders support (contextual and chaining rules, mark
+		// attachment, lookup flags, mark filtering sets, several scripts)
+		r := k.Rng
+		f, info := fontgen.Font(r, fontgen.Opts{Kind: []string{"glyf", "cff", "cid"}[k.Index%3], MinGlyphs: 8, MaxGlyphs: 300})
+		if f.CreationTime.IsZero() && f.ModificationTime.IsZero() {
+			f.ModificationTime = f.ModificationTime.AddDate(2001, 0, 0)
 		}
-		if childOut != "" {
-			os.WriteFile(childOut, []byte(fingerprint(b1)), 0o644)
-			return
+		n := f.NumGlyphs()
+		o := otl.Opts{MaxGID: n - 1, NumLookups: 1 + r.IntN(8), Size: []otl.Size{otl.Tiny, otl.Tiny, otl.Small}[r.IntN(3)]}
+		which := r.IntN(4)
+		if which != 1 {
+			f.Gsub = otl.Info(r, otl.GSUB, o)
 		}
-		k.DistinctBytes(b1)
-		k.Class("kind=" + info.Kind)
-		k.Class("kind=" + info.Kind + ",layout=" + map[bool]string{true: "yes", false: "no"}[f.Gsub != nil || f.Gpos != nil])
-		k.Class("cmap=" + info.CMap)
-		switch {
-		case info.NGlyphs <= 3:
-			k.Class("glyphs<=3")
-		case info.NGlyphs >= 255 && info.NGlyphs <= 257:
-			k.Class("glyphs~256")
-		case info.NGlyphs >= 900:
-			k.Class("glyphs>=900")
-		default:
-			k.Class("glyphs 4..254")
+		if which != 2 {
+			o.NumLookups = 1 + r.IntN(8)
+			f.Gpos = otl.Info(r, otl.GPOS, o)
 		}
-		for _, cl := range info.Classes {
-			k.Class(cl)
+		if r.IntN(3) > 0 {
+			f.Gdef = otl.Gdef(r, n)
+			k.Class("rich-layout:gdef")
 		}
-		// determinism
-		b1b, ok := writeFont(k, f, "Write(F)")
-		if !ok {
-			return
-		}
-		k.Eval()
-		if !bytes.Equal(b1, b1b) {
-			k.Fail("mismatch", "nondeterministic-write", "two calls of Write(F) differ at byte %d (%s)", firstDiff(b1, b1b), desc)
-			return
-		}
-		if k.Index%6 == 0 {
-			// once more in a second OS process
-			exe, _ := os.Executable()
-			tmp := filepath.Join(c.OutDir, fmt.Sprintf("child-%d-%d", c.Shard, k.Index))
-			os.MkdirAll(tmp, 0o755)
-			hf := filepath.Join(tmp, "hash")
-			cmd := exec.Command(exe, "-worker", "-prop", "C01", "-tier", c.Tier, "-seed", fmt.Sprint(c.Seed), "-only", fmt.Sprintf("constructed:%d", k.Index), "-out", tmp, "-nshards", "1")
-			cmd.Env = append(os.Environ(), "C01_CHILD_HASH="+hf)
-			if err := cmd.Run(); err == nil {
-				hb, _ := os.ReadFile(hf)
-				k.Eval()
-				if string(hb) != fingerprint(b1) {
-					k.Fail("mismatch", "nondeterministic-write:cross-process", "Write(F) in a second process gives different bytes (%s vs %s; %s)", hb, fingerprint(b1), desc)
+		for _, l := range []*gtab.Info{f.Gsub, f.Gpos} {
+			if l == nil {
+				continue
+			}
+			gpos := l == f.Gpos
+			for _, lt := range l.LookupList {
+				for _, st := range lt.Subtables {
+					k.Class("rich-layout:" + c06kindName(st, gpos))
 				}
-				k.Class("cross-process-determinism")
 			}
-			os.RemoveAll(tmp)
 		}
-		// lossless
-		g, ok := readFont(k, b1, "Read(Write(F))")
-		if !ok {
-			return
-		}
-		k.Eval()
-		want := normalForm(f)
-		if f.Gsub == nil {
-			// synthetic standard ligatures: compared semantically
-			wantLig := map[string]map[glyph.ID]bool{}
-			if !f.IsFixedPitch() {
-				wantLig = stdLigatures(f)
-			}
-			got := ligatureSet(g.Gsub)
-			if !sameLigatures(wantLig, got) {
-				k.Fail("mismatch", "lossless:synthetic-ligatures", "font without GSUB: ligature rules after reading %v, expected %v (%s)", got, wantLig, desc)
-			}
-			if len(wantLig) > 0 {
-				k.Class("rule:synthetic-ligatures")
-			}
-			want.Gsub = g.Gsub
-		}
-		if d := diffFonts(want, g); d != "" {
-			k.Fail("mismatch", "lossless:font-differs:"+firstDiffField(d), "Read(Write(F)) differs from N(F) (%s) (-want +got):\n%s", desc, d)
-			return
-		}
-		// fixed point from G
-		fixedPoint(k, g, "Read(Write(F))")
-		if k.Index < 3 {
-			k.Sample(desc + fmt.Sprintf(" bytes=%d sha=%s", len(b1), fingerprint(b1)))
-		}
+		desc := fmt.Sprintf("kind=%s glyphs=%d cmap=%s rich layout gsub=%v gpos=%v gdef=%v", info.Kind, info.NGlyphs, info.CMap, f.Gsub != nil, f.Gpos != nil, f.Gdef != nil)
+		c01roundTrip(c, k, "rich-layout", f, info, desc, childOut)
 	})
 	if childOut != "" {
 		return
@@ -691,6 +736,7 @@ func runC01(c *mon.Ctx) {
 		k.Class("concurrent-read")
 	})
 	c.Require("concurrent-read")
+	c.Require("rich-layout:gdef", "rich-layout:gsub5.2", "rich-layout:gsub6.3", "rich-layout:gsub8.1", "rich-layout:gpos4.1", "rich-layout:gpos6.1", "rich-layout:gpos8.2")
 	c.Require("kind=glyf,layout=yes", "kind=glyf,layout=no", "kind=cff,layout=yes", "kind=cff,layout=no", "kind=cid,layout=yes", "kind=cid,layout=no",
 		"cross-process-determinism", "bytes:accepted", "rule:capheight-from-H", "rule:italic-angle-rounding", "rule:underline-rounding", "rule:version-rounding", "glyphs~256")
 }
